@@ -245,7 +245,7 @@ fn single_slot(c: &(u16, u64), obs: &mut Obs) -> CaseResult {
 }
 
 pub fn run(run: &mut Run) {
-    let n = run.cases(60_000, 5_000_000);
+    let n = run.cases(300_000, 12_000_000);
     run.sub(
         "entry",
         "programs of 1..16 set_addr/set_frame/set_flags/set_unused (+ unaligned set_addr as the panic side) with 4KiB-aligned addresses <2^52 and flag sets from bits 0-11 and 52-63; oracle: model u64, transmuted raw entry == addr|flags after every step, addr()/flags()/is_unused()/frame() agree with it, set_flags keeps the address; non-trivial = >=2 setter kinds, non-zero address, flags from both bit groups; distinct by (setter sequence, final raw value)",
@@ -253,7 +253,7 @@ pub fn run(run: &mut Run) {
         proptest::collection::vec(set(), 1..16),
         entry_prog,
     );
-    let n = run.cases(15_000, 1_000_000);
+    let n = run.cases(60_000, 2_400_000);
     run.sub(
         "table",
         "programs of 1..24 writes to slots (0,1,510,511 frequent) through one of three write paths ([usize], [PageTableIndex], iter_mut().nth) and read back through one of four (the three + raw little-endian bytes 8i..8i+8); then whole-table byte comparison, iter order, is_empty, clone, zero(); size_of=align_of=4096; non-trivial = >=2 distinct (write path, read path) pairs on a non-empty table",
